@@ -510,6 +510,123 @@ func c02Atomic(driver string) vh.Unit {
 	}}
 }
 
+// the persistent driver retries a transaction that lost its commit race: a billing keep-alive whose
+// transactions lose 1..k races in a row charges exactly what an undisturbed one charges
+func c02ConflictRetries() vh.Unit {
+	name := "conflict-retries/badger"
+	ids := vh.Identities()
+	C, H1, H2, W := ids[0], ids[1], ids[2], ids[4]
+	return vh.Unit{Name: name, Run: func(u *vh.U) {
+		for _, linked := range []bool{false, true} {
+			var ref vh.Ledger
+			for _, k := range []int{0, 1, 2, 3, 7} {
+				for skip := 0; skip < 8; skip++ { // the first `skip` transactions of the keep-alive commit undisturbed
+					if k == 0 && skip > 0 {
+						continue
+					}
+					vsched.ResetClock(0)
+					var fs *vh.FaultStore
+					pw := vh.NewPoolWorld(vh.PoolConfig{Driver: vh.Badger, WrapStore: func(s store.Store) store.Store {
+						fs = vh.NewFaultStore(s)
+						return fs
+					}})
+					pw.Connect(H1, vh.ConnectOpts{Host: true})
+					pw.Connect(H2, vh.ConnectOpts{Host: true})
+					pw.Connect(C, vh.ConnectOpts{})
+					if linked {
+						pw.AddNode(W, C.NodeID)
+					}
+					hostIDs := []string{H1.NodeID, H2.NodeID}
+					pw.Update(C, hostIDs, 1)
+					vsched.Advance(90 * time.Second)
+					pw.Update(H1, nil, 2)
+					pw.Update(H2, nil, 2)
+					nodes := []string{C.NodeID, H1.NodeID, H2.NodeID}
+					accts := []string{W.Wallet}
+					before := vh.ReadLedger(pw.Raw, nodes, accts)
+					// conflicts start after `skip` store calls of the keep-alive
+					armed := false
+					fs.OnCall = func(n int) {
+						if !armed && n >= skip {
+							armed = true
+							vh.InjectBadgerConflicts(k)
+						}
+					}
+					base := fs.N
+					fs.Base = base
+					_, err := pw.Update(C, hostIDs, 3)
+					fs.OnCall = nil
+					vh.InjectBadgerConflicts(0)
+					after := vh.ReadLedger(pw.Raw, nodes, accts)
+					u.R.Evaluations++
+					u.R.States++
+					u.R.Transitions++
+					u.R.Traces++
+					if k == 0 {
+						ref = after
+						if err != nil || before.Equal(after) {
+							u.Violate("conflict-retries/baseline", fmt.Sprintf("undisturbed billing keep-alive: err=%v", err), nil)
+							return
+						}
+						continue
+					}
+					u.Observe(fmt.Sprintf("linked=%v k=%d skip=%d err=%v", linked, k, skip, err != nil))
+					if err != nil || !ref.Equal(after) {
+						u.Violate("conflict-retries/charged-differently", fmt.Sprintf("linked=%v: %d lost commit races in a row after store call %d of a billing keep-alive: err=%v, ledger %s instead of %s", linked, k, skip, err, after, ref), nil)
+					}
+				}
+			}
+		}
+		u.Sample("a billing keep-alive whose transactions lose 1/2/3/7 commit races in a row, starting at each of its first 8 store calls")
+	}}
+}
+
+// a client that is billed below the minimum and keeps sending keep-alives: every keep-alive is
+// refused with the low-balance error, and still every stretch of time is billed exactly once
+func c02BelowMinimum(driver string) vh.Unit {
+	name := "below-minimum/" + driver
+	ids := vh.Identities()
+	C, H1 := ids[0], ids[1]
+	return vh.Unit{Name: name, Run: func(u *vh.U) {
+		for _, crossAt := range []int{1, 2, 3, 5} { // the keep-alive that takes the client below the minimum
+			for _, rounds := range []int{4, 6} {
+				vsched.ResetClock(0)
+				// price 1 per ns: a keep-alive after 20 s costs 20e9; minimum chosen so that round crossAt crosses it
+				min := new(big.Int).Neg(big.NewInt(int64(crossAt)*20e9 - 10e9))
+				pw := vh.NewPoolWorld(vh.PoolConfig{Driver: driver, Price: big.NewInt(1), Interval: 1, MinBalance: min})
+				pw.Connect(H1, vh.ConnectOpts{Host: true})
+				if _, err := pw.Connect(C, vh.ConnectOpts{}); err != nil {
+					u.Violate("below-minimum/setup", err.Error(), nil)
+					continue
+				}
+				pw.Update(C, []string{H1.NodeID}, 1)
+				lows := 0
+				for r := 1; r <= rounds; r++ {
+					vsched.Advance(20 * time.Second)
+					pw.Update(H1, nil, uint64(r))
+					_, err := pw.Update(C, []string{H1.NodeID}, uint64(r))
+					if _, low := vh.AsLowBalance(err); low {
+						lows++
+					} else if err != nil {
+						u.Violate("below-minimum/"+driver+"/unexpected-error", err.Error(), nil)
+					}
+				}
+				bal, _ := pw.Store.GetNodeBalance(store.NodeID(H1.NodeID))
+				u.R.Evaluations++
+				u.R.States++
+				u.R.Transitions += int64(rounds)
+				u.R.Traces++
+				want := big.NewInt(int64(rounds) * 20e9)
+				u.Observe(fmt.Sprintf("cross=%d rounds=%d lows=%d over=%s", crossAt, rounds, lows, new(big.Int).Sub(&bal.Credit, want)))
+				if bal.Credit.Cmp(want) != 0 {
+					u.Violate("below-minimum/"+driver+"/time-billed-twice-or-not-at-all", fmt.Sprintf("%d keep-alives 20 s apart at 1 per ns, the client crossing its minimum at keep-alive %d (%d were refused as low balance): the host was credited %s for %s ns of service", rounds, crossAt, lows, bal.Credit.String(), want), nil)
+				}
+			}
+		}
+		u.Sample("keep-alives continuing after the low-balance cut-off")
+	}}
+}
+
 func init() {
 	vh.Register(&vh.Check{
 		ID: "C02", Level: "model_checking",
@@ -532,7 +649,10 @@ func init() {
 				for s := 0; s < n; s++ {
 					us = append(us, c02Slicing(d, s, n))
 				}
-				us = append(us, c02Atomic(d), c02Latency(d))
+				us = append(us, c02Atomic(d), c02Latency(d), c02BelowMinimum(d))
+				if d == vh.Badger {
+					us = append(us, c02ConflictRetries())
+				}
 				// no stretch of time is charged twice, also when keep-alives of one client overlap
 				b := 2
 				if d == vh.Badger {
